@@ -240,7 +240,8 @@ def r5_formatter_interface(ctx, rep):
                        name not in _class_attrs(m, c)]
             construct = '%s: output.%s' % (fi.qualname, name)
             if missing:
-                guards = _guard_atoms(n, fi.node)
+                from .common import guard_literals
+                guards = guard_literals(ctx, fi, n)
                 hg = any(isinstance(t, ast.Call) and dotted(t.func) == 'hasattr' and pos and
                          len(t.args) == 2 and isinstance(t.args[1], ast.Constant) and
                          t.args[1].value == name for t, pos in guards)
